@@ -33,6 +33,8 @@ LEVEL = "exploration"
 TECHNIQUE = ("deterministic simulation: seeded interleaving of scheduler ticks, pause/resume/stop, Deferred firings and "
              "Cooperator stop/start on a real Cooperator vs a reference task-state model")
 QUICK_RUNS = 48000
+TWIN_P = 0.08   # this share of the runs drives two independent instances of the scenario one after the other (detsim.runner._run_scenario)
+USES_DEPTH = True   # thorough tier: history length bound scales with sim.depth (1..3) beyond the quick tier\'s run indices
 BATCH = 50
 RUN_WALL_LIMIT_S = 60   # the machine is shared; a run itself takes about a millisecond
 COMPONENTS = {"real": ["twisted.internet.task.Cooperator", "twisted.internet.task.CooperativeTask", "twisted.internet.defer.Deferred"],
@@ -100,7 +102,7 @@ def run(sim):
     units = sim.draw_int(1, 5, "units")
     started = not sim.draw_bool(0.2, "not_started")
     ntasks0 = sim.draw_int(1, 5, "ntasks0")
-    nops = sim.draw_int(10, 70, "nops")
+    nops = sim.draw_int(10, 70 * sim.depth, "nops")
     avoid = sim.draw_bool(0.15, "avoid_known") or bool(os.environ.get("VERIF_C11_AVOID_KNOWN"))
     sim.config = {"units": units, "started": started, "ntasks0": ntasks0, "nops": nops, "avoid_known": avoid}
 
@@ -439,7 +441,7 @@ def run(sim):
         add_task()
     audit()
     for _ in range(nops):
-        sim.step(500)
+        sim.step(500 * sim.depth)
         live_tick = any(t.active() for t in ticks)
         handles = [mt for mt in tasks if mt.task is not None]
         unfinished = [mt for mt in handles if mt.finished is None]
